@@ -156,10 +156,24 @@ impl Diff {
 fn tokenize(b: &[u8]) -> impl Iterator<Item = &[u8]> {
     use std::iter;
 
+    // A name has 128 token positions: the first is the dup/diff distance and the last, the end
+    // token.
+    const MAX_TOKEN_COUNT: usize = 126;
+
     let mut start = 0;
     let mut end = 0;
+    let mut count = 0;
 
     iter::from_fn(move || {
+        count += 1;
+
+        // The last token takes the remainder of the name.
+        if count == MAX_TOKEN_COUNT && start < b.len() {
+            let beg = start;
+            (start, end) = (b.len(), b.len());
+            return Some(&b[beg..]);
+        }
+
         while end < b.len() && b[end].is_ascii_alphanumeric() {
             end += 1;
         }
